@@ -98,15 +98,15 @@ UNITS = [context]
 LETTERS = 'zZxXhH.'
 
 
-def tags_setup(eng):
+def tags_setup(eng, base=99):
     eng.ghost.clear()
     calls = {}
-    for p in (100, 101, 103):
+    for p in (base + 1, base + 2, base + 4):
         letter = named(STR, 'call_%d' % p)
         eng.assume(z3.Or(*[letter.z == z3.StringVal(c) for c in LETTERS]))
         calls[('chr1', p)] = {'context': letter, 'reference_base': 'C', 'consensus': 'T'}
     eng.spec_env['CALLS'] = calls
-    pairs = [(0, 99), (1, 100), (2, 101), (3, 102), (None, 103), (4, None), (5, 104)]
+    pairs = [(0, base), (1, base + 1), (2, base + 2), (3, base + 3), (None, base + 4), (4, None), (5, base + 5)]
     eng.spec_env['PAIRS'] = pairs
 
     def aligned_pairs(e, o, **k):
@@ -145,6 +145,13 @@ set_tags = Contract(
     assumptions=['pysam get_aligned_pairs(matches_only=True) yields the aligned (query, reference) columns (A4)'],
 )
 UNITS.append(set_tags)
+
+# the same read aligned at the very start of the contig (reference position 0 is a position like any other)
+import copy as _copy      # noqa: E402
+set_tags_at_0 = _copy.copy(set_tags)
+set_tags_at_0.name = 'Molecule.set_methylation_call_tags[alignment starts at reference position 0]'
+set_tags_at_0.setup = lambda eng: tags_setup(eng, 0)
+UNITS.append(set_tags_at_0)
 
 
 # ------------------------------------------------------------------------------ TAPSMolecule.obtain_methylation_calls
